@@ -262,6 +262,12 @@ class Conn(object):
             self.sim.note('concurrent_receive')
         if self.sticky_disconnect is not None and not self.queue:
             self.recv_after_disconnect += 1
+            if self.recv_after_disconnect > 500:
+                # an application spinning on receive() after the disconnect
+                # never yields to the loop: abort the run (BaseException)
+                from .simloop import SimBudgetExceeded
+                raise SimBudgetExceeded('receive() called %d times after the disconnect'
+                                        % self.recv_after_disconnect)
             return dict(self.sticky_disconnect)
         granted = not self.recv_suspends
         self.in_receive += 1
